@@ -200,6 +200,15 @@ def rule_entry(R):
                 c = code.calls.get(bb)
                 if c is not None and c.dst["l"] == 0 and not c.dst["proj"]:
                     vals.append(code.call_term(bb))
+            if not vals:
+                # the value travels through temporaries (a guard that lives in an inlined helper): read it per path
+                fl_t = [fl]
+                if fl_t and fl_t[0] is not None:
+                    for lf in paths.explore(code, fl_t[0], lambda t_: False, lambda b_, x_: False, max_paths=500):
+                        if lf["kind"] == "return":
+                            pv = paths.value_on_path(code, [src] + lf["path"], 0)
+                            if pv is not None:
+                                vals.append(pv)
             okv = bool(vals) and all(dead_value_ok(v, want) for v in vals)
             if n in roles.public_ops(f) or n in ("can_publish", "drive_packet", "read_packet", "perform_outbound_step", "flush_current"):
                 R.ob("dead-value/%s@%d" % (n, nsw_index(code, src)), okv,
